@@ -988,6 +988,13 @@ class Gen:
                 body.insert(r.randint(first, len(body)),
                             {'k': 'ifl', 'cond': self.cond(sc, 1),
                              'then': [{'k': 'exit', 'what': 'sub'}], 'els': None})
+        if p['arr_rank'] and r.random() < 0.6:
+            # pass the array parameter on to another procedure, and touch an
+            # element afterwards
+            c = self.call_stmt(sc) or self.func_call_stmt(sc)
+            if c is not None:
+                at = len(body) - (1 if p['kind'] == 'function' else 0)
+                body.insert(max(at, 0), c)
         self.stmt_budget = save
         p['body'] = body
 
@@ -1153,6 +1160,15 @@ class Gen:
             if r.random() < 0.6:
                 g = {'k': 'ifl', 'cond': self.cond(sc, 1), 'then': [g], 'els': None}
             body.insert(j, {'k': 'label', 'name': lab})
+            if self.p['family'] == 'any' and r.random() < 0.3:
+                # a static array whose DIM is jumped over and that is used
+                # afterwards (QBASIC allocates it at compile time)
+                an = self.fresh('la', '%')
+                body.insert(j + 1, {'k': 'multi', 'stmts': [
+                    {'k': 'let', 'lv': ['idx', an, [['lit', '%', 2]]], 'e': ['lit', '%', 5]},
+                    {'k': 'print', 'items': [[['idx', an, [['lit', '%', 2]]], '']]}]})
+                body.insert(j, {'k': 'dim', 'shared': False, 'name': an,
+                                'bounds': [[['lit', '%', 1], ['lit', '%', 3]]], 'ty': '%', 'as': False})
             body.insert(i, g)
         self.plants = []
         all_repairs = []
@@ -1423,6 +1439,15 @@ def const_program(r):
             lo = ['bin', r.choice(('+', '-', '*', '\\', 'mod', 'and', 'or')),
                   ['lit', r.choice('%&!#'), r.choice((0, 1, 2, 3))],
                   ['lit', r.choice('%&!#'), r.choice((1, 2, 1.5, 0.5, 2.5) if r.random() < 0.4 else (1, 2, 3))]]
+            if r.random() < 0.2:
+                # bounds whose evaluation fails: must fail when the DIM
+                # executes, at every level, not in the compiler
+                lo = ['bin', r.choice(('\\', 'mod', '/')), ['lit', r.choice('%&!#'), r.choice((1, 2, 7))],
+                      ['lit', r.choice('!#'), r.choice((0.0, 0.5, 0.25))]]
+                if lo[1] == '/':
+                    lo[3] = ['lit', r.choice('%&!#'), 0]
+            elif r.random() < 0.1:
+                lo = ['bin', '+', ['lit', '%', 32767], ['lit', '%', r.choice((1, 2))]]
             hi = ['bin', '+', ['par', lo], ['lit', r.choice('%&!#'), r.choice((1, 2, 2.5, 3.5, 0.5))]]
             if lo[3][1] in '%&':
                 lo[3][2] = int(lo[3][2])
